@@ -246,6 +246,16 @@ def do_cells(case, rec, rng, ws, dims, inverse, copy):
     exp, keep_cells = expect_cell_object(pts, cells, box, dims, inverse)
     got = obj.mask_by_extent(np.array(box), inverse=inverse)
     judge_mask(rec, cls, got, exp, pts, box, dims, inverse, style)
+    # the same selection asked of the data themselves: one entry per cell for cell data (a cell qualifies when all its vertices
+    # do, under the direct or the complementary test), one per vertex for vertex data
+    for dname, want in (("cd", keep_cells), ("vd", expect_vertex_mask(pts, box, dims, inverse))):
+        dd = obj.get_data(dname)[0]
+        gm = dd.mask_by_extent(np.array(box), inverse=inverse)
+        rec.see("data-level-masks")
+        if gm is None:
+            rec.check("C13.none", not (bbox_hit(pts, box, dims) and any(want)) or inverse, op="Data.mask_by_extent", cls=cls, attr=f"{dims}d{':inverse' if inverse else ''}:{dname}", detail=f"None returned although {sum(want)} entries qualify; box={box} {style}")
+        else:
+            rec.check("C13.mask", [bool(x) for x in np.asarray(gm).tolist()] == [bool(x) for x in want], op="Data.mask_by_extent", cls=cls, attr=f"{dims}d{':inverse' if inverse else ''}:{dname}", detail=f"box={box} {style} inverse={inverse}: {dname} mask {np.asarray(gm).astype(int).tolist()} expected {[int(x) for x in want]} (cells {cells}, vertices {pts[:10]})")
     if copy:
         rec.see("copies")
         for inv in [inverse, not inverse][: 2 if rng.random() < 0.5 else 1]:
